@@ -8,6 +8,36 @@ import os
 ROOT = os.path.dirname(os.path.dirname(os.path.abspath(__file__)))
 
 CHECKS = {
+    "C07": dict(
+        category="model_checking",
+        technique="deviation-bounded exhaustive exploration: every single (thorough: double) character-, token- and "
+                  "line-level mutation of every seed text and override specifier, plus enumeration of all 512 include "
+                  "graphs over three resources and in-process runs of the validator command; invariant oracle on the "
+                  "class of whatever escapes",
+        text="(a) delete / duplicate / transpose at every character, insertion of every grammar metacharacter and five "
+             "out-of-vocabulary characters at every position, delete / duplicate / swap of every token and line, "
+             "insertion of 22 junk lines at every line position - for every seed (accepted corpus texts, a 40-line "
+             "text with defines, nesting, %import); (b) valid override specifiers, all their single mutations and "
+             "pairs; (c) every include graph on 3 in-memory files (cycles and self-loops included) at top level and "
+             "inside a section: cyclic graphs rejected, acyclic top-level graphs accepted; (d) validator.main on 1-3 "
+             "files: status 0/1, one message per invalid file in order.  Only ZConfig.ConfigurationError-family "
+             "exceptions may escape.",
+        note="Schemas use only ValueError-raising datatypes.  Remote URLs not covered.",
+        design="DESIGN.md section 3, C07", engine="E3 deviate"),
+    "C08": dict(
+        category="model_checking",
+        technique="deviation-bounded exhaustive exploration: for every accepted seed text and every way of spreading it "
+                  "over 1-3 resources, exactly one fault of each applicable kind is injected at every line position of "
+                  "every resource (culprit known by construction) and the raised error's position is checked",
+        text="Seeds from the reference-model BFS over a purpose-built schema whose containers admit all ~35 fault kinds "
+             "(plus hand-written deep seeds and blank/comment-decorated variants); layouts: one resource, a balanced "
+             "range in an included resource, two nested includes (in-memory, distinct URLs).  Oracle: .lineno == "
+             "1-based culprit line within its resource, .url == that resource's URL; for conversion errors .value == "
+             "offending text and .exception is the very ValueError instance the datatype raised; both spellings of "
+             "empty sections.",
+        note="The position of a rejecting *section datatype* is not compared (not in the statement's list; it runs "
+             "when the enclosing container finishes).  Single faults only.",
+        design="DESIGN.md section 3, C08", engine="E3 deviate"),
     "C20": dict(
         category="model_checking",
         technique="exhaustive enumeration of the logger component's option, level and format-string products, and an "
